@@ -127,7 +127,8 @@ GEN_FUNCS = ("gen",)
 
 
 _KN = {"p_switch": 0.0, "cost_ns": 1000, "clock_step_ns": 2000, "stall_p": 0.0, "ident_reuse_p": 0.0}
-#: minimal scenarios of the recorded findings: run first in every batch, so each listed finding is re-confirmed
+#: minimal scenarios of the defects this check found (three repaired since, the 'catcher' one is a listed finding): run
+#: first in every batch, so the listed finding is re-confirmed and the repaired ones are regression-tested
 PINNED = (
     {"tps": [{"id": "tp0", "kind": "mcap", "fire_count": "1", "func": "rec"}], "threads": [["rec"]]},
     {"tps": [{"id": "tp0", "kind": "mcap", "fire_count": "1", "func": "work"}], "threads": [["super"]]},
